@@ -699,10 +699,40 @@ def c11_pull(ctx):
             continue
         cs = P(b.local_name(pl))
         r = ctx.run(tn)
+        from .rules_tasks import resolve_in_scope
         for cb in F.closures_in(b):
-            for _, t in cb.calls():
-                if is_pull_call(t):
-                    out.fail('C11-PULL/%s/closure-pull' % key_of(b), 'a pull (%s) happens inside a closure of the task: chunk-size provenance not decided there' % method(t), cb.where(t.get('line')), kind='undecided')
+            rc = None
+            for cbb, t in cb.calls():
+                if not is_pull_call(t):
+                    continue
+                rc = rc or ctx.run(cb.name)
+                c = rc.calls.get(cbb)
+                if c is None:
+                    continue
+                n += 1
+                key = 'C11-PULL/%s/%s' % (key_of(b), method(t))
+                # where the closure is created: the path facts there guard what the closure may do
+                creator = F.bodies.get(cb.parent)
+                cpc = frozenset()
+                if creator is not None:
+                    rcr = ctx.run(creator.name)
+                    for bbx, blk in creator.blocks.items():
+                        if any(st['rv']['r'] == 'agg' and st['rv'].get('ak') == 'closure' and st['rv'].get('def') == cb.name for st in blk['stmts']):
+                            cpc = rcr.state.get(bbx, {}).get('$pc', frozenset())
+                if is_coniter_call(t, PULL_SIZED):
+                    size = resolve_in_scope(ctx, b, cb, c['args'][1]) if len(c['args']) > 1 else None
+                    ok = size == cs
+                    out.inst(key, ok, t_str(size), sample={'task': key_of(b), 'pull': method(t), 'size': t_str(size), 'in_closure': key_of(cb)})
+                    if not ok:
+                        out.fail(key, '%s pulls (inside a closure) with size %s instead of its chunk_size parameter' % (key_of(b), t_str(size)[:120]), cb.where(c['line']))
+                elif is_coniter_call(t, PULL_ELEMENT) and creator is not None and creator.name == b.name:
+                    one = any(pt == cs and f == ('eq', 1) for pt, f in cpc) or \
+                        any(pt in (('bin', 'Eq', cs, ('const', 1)), ('bin', 'Eq', ('const', 1), cs)) and lin.fact_truth(f) is True for pt, f in cpc)
+                    out.inst(key, one, 'element-wise pull in a closure created under chunk_size == 1' if one else 'element-wise pull in a closure not guarded by chunk_size == 1')
+                    if not one:
+                        out.fail(key, '%s pulls element-wise (%s, inside a closure) on a path where chunk_size may differ from 1' % (key_of(b), method(t)), cb.where(c['line']))
+                elif not is_buffered_next(t):
+                    out.fail('C11-PULL/%s/closure-pull' % key_of(b), 'a pull (%s) happens inside a nested closure of the task: chunk-size provenance not decided there' % method(t), cb.where(t.get('line')), kind='undecided')
         for bb, c in r.call_sites():
             t = c['t']
             if is_coniter_call(t, PULL_SIZED):
@@ -986,7 +1016,8 @@ def c03_outer(ctx):
         r = ctx.run(b.name)
         top = r.ret
         cases, V = runner_cases(ctx, b, r, c)
-        ok2 = cases['none'] == {none()} and cases['some'] == {V}
+        none_like = bool(cases['none']) and all(x == none() or (x[0] == 'call' and term_method(x) == 'default') for x in cases['none'])
+        ok2 = none_like and cases['some'] == {V}
         out.inst(key + '/ret', ok2, 'None => %s; Some(v) => %s' % (sorted(t_str(x)[:30] for x in cases['none']), sorted(t_str(x)[:30] for x in cases['some'])), sample=None)
         if not ok2:
             out.fail(key + '/ret', '%s does not return the flattened result of the runner reduction: %s' % (key_of(b), t_str(top)[:160]), b.where())
